@@ -21,6 +21,7 @@
 #define SOLREADER2_HPP
 
 #include <cstdio>
+#include <limits>
 
 #include "mp/sol-reader2.h"
 
@@ -499,7 +500,9 @@ Lget(char **sp, int *Lp)
     return 1;
   L = c - '0';
   while((c = *s) >= '0' && c <= '9') {
-    L = 10*L + c - '0';
+    if (L > (std::numeric_limits<int>::max() - 9) / 10)
+      return 1;                     // would overflow int
+    L = 10*L + (c - '0');
     s++;
   }
   *Lp = L;
